@@ -291,6 +291,8 @@ def run_case(case: dict) -> CaseResult:
     if r is None or r[0] != "ok":
         env.close()
         raise HarnessError(f"C15: scenario did not run to the end: {r and repr(r[1])}")
+    if any(e["kind"] == "written_buffer_changed" for e in env.trace):
+        res.violations.append(V("c15:request-bytes-changed-after-write", "a buffer handed to transport.write() for one command was modified by a later command (the transport may still have been holding it)"))
     for rec in record:
         m = rec["m"]
         c = case["sessions"][rec["s"]]["cmds"][rec["c"]]
